@@ -30,6 +30,19 @@ JOB_SIZE = {"quick": 700, "thorough": 2500}
 
 # ------------------------------------------------------------------------------ generators
 
+
+_STALE = {}
+
+
+def stale_pt(c):
+    """content of output objects before the call: a fixed multiple of G that no generated case expects as its result
+    (the generator itself is the expected value of [1]G: a routine returning without writing must not pass)"""
+    key = (c.cid, c.F.p)
+    if key not in _STALE:
+        _STALE[key] = c.E.mul(0x5DEECE66D1234567 % c.n or 3, c.G)
+    return _STALE[key]
+
+
 def point_spec(c, allow_outside=True):
     """A point description: {'m': multiplier of G} or {'x': x-coordinate, 's': sign} for arbitrary curve points."""
     n = c.n
@@ -173,7 +186,7 @@ def run_law(env, cfg, case):
         def build(p):
             sp = p.new("EP", enc(c, P, rp))
             sq = sp if alias == 3 else p.new("EP", enc(c, Q, rq))
-            sr = p.new("EP", enc(c, c.G, {"kind": "basic", "z": 1})) if alias in (0, 3) else (sp if alias == 1 else sq)
+            sr = p.new("EP", enc(c, stale_pt(c), {"kind": "basic", "z": 1})) if alias in (0, 3) else (sp if alias == 1 else sq)
             if op == "ep_add_slp_basic":
                 ss = p.new("FP", c.F.enc(5))
                 p.call(op, sr, sp, sq, ss)
@@ -216,7 +229,7 @@ def run_law(env, cfg, case):
 
         def build(p):
             sp = p.new("EP", enc(c, P, rp))
-            sr = sp if al else p.new("EP", enc(c, c.G, {"kind": "basic", "z": 1}))
+            sr = sp if al else p.new("EP", enc(c, stale_pt(c), {"kind": "basic", "z": 1}))
             if op == "ep_dbl_slp_basic":
                 ss = p.new("FP", c.F.enc(5))
                 p.call(op, sr, sp, ss)
@@ -318,7 +331,7 @@ def run_mul(env, cfg, case):
 
     def build(p):
         sp = p.new("EP", enc(c, P, case["rp"]))
-        sr = sp if alias else p.new("EP", enc(c, c.G, {"kind": "basic", "z": 1}))
+        sr = sp if alias else p.new("EP", enc(c, stale_pt(c), {"kind": "basic", "z": 1}))
         if op == "ep_mul_gen":
             sk = p.bn(k)
             p.call(op, sr, sk)
@@ -380,7 +393,7 @@ def run_fix(env, cfg, case):
         p.call(pre, st_, sp)
         outs = []
         for k in case["ks"]:
-            sr = p.new("EP", enc(c, c.G, {"kind": "basic", "z": 1}))
+            sr = p.new("EP", enc(c, stale_pt(c), {"kind": "basic", "z": 1}))
             sk = p.bn(k)
             p.call(fix, sr, st_, sk)
             p.dump(sr)
@@ -461,7 +474,7 @@ def run_sim(env, cfg, case):
         reps = [basic, reps[1]]
 
     def build(p):
-        sr = p.new("EP", enc(c, c.G, basic))
+        sr = p.new("EP", enc(c, stale_pt(c), basic))
         if op in SIM2:
             s0, s1 = p.new("EP", enc(c, pts[0], reps[0])), p.new("EP", enc(c, pts[1], reps[1]))
             k0, k1 = p.bn(ks[0]), p.bn(ks[1])
@@ -531,7 +544,7 @@ def run_misc(env, cfg, case):
 
         def build(p):
             sp = p.new("EP", enc(c, P, basic))
-            sr = p.new("EP", enc(c, c.G, basic))
+            sr = p.new("EP", enc(c, stale_pt(c), basic))
             p.call(op, sr, sp)
             p.dump(sr)
             return sr, sp
@@ -544,7 +557,7 @@ def run_misc(env, cfg, case):
 
         def build(p):
             sp = p.new("EP", enc(c, P, basic))
-            sr = p.new("EP", enc(c, c.G, basic))
+            sr = p.new("EP", enc(c, stale_pt(c), basic))
             p.call(op, sr, sp)
             p.dump(sr)
             return sr, sp
@@ -580,7 +593,7 @@ def run_misc(env, cfg, case):
     def build(p):
         body = b"".join(enc(c, P, r_) for P, r_ in zip(pts, reps))
         sv = p.new("EPV", struct.pack("<II", n, n) + body)
-        so = p.new("EPV", struct.pack("<II", n, n) + b"".join(enc(c, c.G, basic) for _ in range(n)))
+        so = p.new("EPV", struct.pack("<II", n, n) + b"".join(enc(c, stale_pt(c), basic) for _ in range(n)))
         p.call(op, so, sv, n)
         p.dump(so)
         return so, sv
